@@ -219,11 +219,17 @@ def gen_focused_case(seeds, w, s):
         docs[1]['v']['n'] = (docs[1]['v']['n'] + 1) % 10
         docs[1]['v']['list'] = docs[1]['v']['list'] + [7]
     tasks = [[[0, 0]], [[len(stmts) - 1, 1]]]
+    modes = []
+    if w.random() < 0.3:
+        # the second thread works with an engine derived from the first
+        # one's (stricter options), or parses the text itself
+        modes.append([len(stmts) - 1, 1, w.choice(['copyq', 'copyq', 'copyl',
+                                                    'copy', 'parse'])])
     return {'stmts': stmts, 'docs': docs, 'tasks': tasks,
             'sched': {'policy': 'writes', 'seed': seeds.sub('sched'),
                       'nswitch': 1, 'sweep': 14},
             'via_eval': False, 'cold': w.random() < 0.4, 'shared': 'plain',
-            'modes': [], 'focused': True}
+            'modes': modes, 'focused': True}
 
 
 def gen_case(seeds, params, index):
